@@ -567,6 +567,10 @@ func (em *emitter) emit(p *pkgInfo, it Item) {
 		})
 		fmt.Fprintf(&em.b, "def %s : List String := %s\n\n", em.name(it), strList(out))
 	default:
+		if h, ok := extraKinds[it.Kind]; ok { // kinds registered by specs_*.go files
+			h(em, p, it)
+			return
+		}
 		em.fail(it, "Nat", "0", "unknown item kind")
 	}
 }
